@@ -1,7 +1,7 @@
 (* C19 -- fp_math.py (translated: gen.GenFpMath) equals the gemmlowp / TFLite reference functions
    (model.FpMath) on their whole domains, and never fails (no assert, no NumPy overflow) there. *)
 From Coq Require Import ZArith List Bool Lia.
-From VV Require Import lib.PyInt lib.Bits gen.GenFpMath model.FpMath.
+From VV Require Import lib.PyInt lib.PyFloat lib.Bits gen.GenFpMath model.FpMath.
 Import ListNotations.
 Open Scope Z_scope.
 
@@ -1249,6 +1249,47 @@ Example lut_prelu_example :
   PReluRef 0 0 (-128) (-96) 1073741824 1 1073741824 (-6) (-128) 127 (-100) = -25 /\
   (* without the alpha zero point the slope would be -0.75 and the entry 75 *)
   vela_lrelu_entry 0 0 1073741824 30 (-96) 1073741824 37 (-128) 127 (-100) = Some 75.
+Proof. vm_compute. repeat split. Qed.
+
+(* Maximum(x, Mul(x, c)) / Maximum(x, Mul(c, x)): the table built from the alpha_scaling the rewrite derives is the
+   MUL-kernel reference (Prelu shape) with the multiplier of (ifm scale, CONSTANT's scale, Mul output scale),
+   whichever operand of the Mul the constant is *)
+Lemma lut_mulmax_correct_lemma qs fm ct mul_ofm (const_first : bool) zo ids idsh qmin qmax x :
+  let in1 := if const_first then ct else fm in
+  let in2 := if const_first then fm else ct in
+  let als := fst (qs (q_scale fm) (q_scale ct) (q_scale mul_ofm)) in
+  let alsh := snd (qs (q_scale fm) (q_scale ct) (q_scale mul_ofm)) in
+  same8 x (q_zp fm) -> same8 (q_code ct) (q_zp ct) -> code8 zo ->
+  in_int 32 ids = true -> in_int 32 als = true -> 9 <= idsh <= 62 -> 16 <= alsh <= 62 ->
+  vela_mulmax_entry qs fm in1 in2 mul_ofm (negb const_first) zo ids idsh qmin qmax x =
+    Some (PReluRef (q_zp fm) zo (q_zp ct) (q_code ct) ids (31 - idsh) als (31 - alsh) qmin qmax x).
+Proof.
+  cbv zeta. intros Hx Ha Hzo Hids Hals Hs1 Hs2.
+  unfold vela_mulmax_entry, mulmax_alpha_scaling.
+  assert (E : (if negb const_first then (if const_first then fm else ct) else (if const_first then ct else fm)) = ct)
+    by (destruct const_first; reflexivity).
+  rewrite E. destruct (qs (q_scale fm) (q_scale ct) (q_scale mul_ofm)) as [a sh] eqn:Eq. cbn [fst snd] in *.
+  apply (lut_prelu_correct_lemma (q_zp fm) zo (q_zp ct) (q_code ct) ids idsh a sh qmin qmax x); assumption.
+Qed.
+
+(* the decision is about the value the constant stands for *)
+Lemma mulmax_kind_spec code zp m e :
+  e <= 0 ->
+  (mulmax_kind code zp (Dy m e) = 1 <-> 0 <= m * (code - zp) <= 2 ^ (- e)) /\
+  (mulmax_kind code zp (Dy m e) = 2 <-> m * (code - zp) = - 2 ^ (- e)).
+Proof.
+  intros He. unfold mulmax_kind, dy_leb, dy_align, dy_mul_int, dy_of_Z. cbn [dm de].
+  rewrite (Z.min_r 0 e), (Z.min_l e 0) by lia. replace (e - e) with 0 by lia. replace (0 - e) with (- e) by lia.
+  change (2 ^ 0) with 1. rewrite !Z.mul_1_r, Z.mul_0_l.
+  pose proof (pow2_pos (- e) ltac:(lia)) as Hp. set (p := 2 ^ (- e)) in *. set (v := m * (code - zp)).
+  destruct (Z.leb_spec 0 v); destruct (Z.leb_spec v (1 * p)); destruct (Z.leb_spec (-1 * p) v);
+    destruct (Z.leb_spec v (-1 * p)); cbn [andb]; split; split; intros; try discriminate; try lia.
+Qed.
+
+Example mulmax_example :
+  (* uint8 alpha code 192, zero point 0, scale 2^-7 = 1.5: not rewritten; code 64: 0.5 -> LeakyRelu; int8 -128 * 2^-7 = -1 -> Abs *)
+  mulmax_kind 192 0 (Dy 1 (-7)) = 0 /\ mulmax_kind 64 0 (Dy 1 (-7)) = 1 /\ mulmax_kind (-128) 0 (Dy 1 (-7)) = 2 /\
+  mulmax_kind (-96) (-128) (Dy 8388608 (-30)) = 1.
 Proof. vm_compute. repeat split. Qed.
 
 Example lut_lrelu_example :
